@@ -29,7 +29,7 @@ if not a.skip_verify:
                                "repo_commit": subprocess.run(["git", "-C", "/repo", "rev-parse", "--short", "HEAD"], capture_output=True, text=True).stdout.strip(),
                                "output": out.splitlines()[-4:]},
                  "needs_to_manifest": meta.get("needs_to_manifest") or next((l.strip() for l in notes.splitlines() if re.search(r"trigger|needs|manifest", l, re.I)), "")[:600]})
-checks = (a.checks or a.prop).split(",")
+checks = [] if a.checks == "none" else (a.checks or a.prop).split(",")
 res = meta.setdefault("detected_by", {})
 for c in checks:
     t0 = time.time()
